@@ -139,7 +139,7 @@ def storage_layer_requests(r, n_seq, n_ops):
 
 
 def js_level_requests(r, n_seq, n_ops):
-    """the JS-level mode of the line protocol: `a[k] = v`, `a[k]`, `a.push(v)`, `a.shift()`, `delete a[k]` run through the VM
+    """the JS-level mode of the line protocol: `a[k] = v`, `a[k]`, `a.push(v)`, `a.shift()`, `delete a[k]`, a read-only `length` run through the VM
     and the builtins on a real array; the engine answers with the storage it ends up with (variant, length, contents)"""
     lines = []
     for _ in range(n_seq):
@@ -157,9 +157,11 @@ def js_level_requests(r, n_seq, n_ops):
                 n = max(n, k + 1)
             elif c < 72:
                 lines.append("aget %d" % k)
-            elif c < 92:
+            elif c < 90:
                 lines.append("ashift")
                 n = max(0, n - 1)
+            elif c < 93:
+                lines.append("alock")       # `length` becomes read-only; the array stays in its storage variant
             else:
                 lines.append("adel %d" % k)
     return lines
